@@ -99,7 +99,7 @@ def judge(res, code, feats, canary_offsets, resp):
 def shard(shard_no, nshards, seed, tier, extra):
     res = common.Result()
     rng = common.rng_for(seed, "c08", shard_no)
-    n = 700 if tier == "quick" else 30000
+    n = 700 if tier == "quick" else 60000
     d = common.Driver("rel", shim=False)
     for i in range(n):
         code, feats, canary_offsets = progs.controlflow(rng)
